@@ -12,11 +12,15 @@ OBLIGATIONS = [
     "Pkgcore.C15.planOk_complete",
     "Pkgcore.C15.limiter_refuses_blocked",
     "Pkgcore.C15.unforced_slot_unique",
+    "Pkgcore.C15.reorder_perm",
+    "Pkgcore.C15.reorder_keeps_clause",
 ]
 TECHNIQUE = "verified certificate checker (Lean 4) deciding every plan the real resolver reports + proved planner-state invariants"
 TRUSTED = [
     "the backtracking search of merge_plan itself is NOT modelled: assurance about it is per reported plan (every plan of every run is "
     "decided by the verified checker planOk), not for all inputs",
+    "the flags the reorder strategy model is given (alternative is a blocker; alternative already provided = state.match_atom(a) or a in "
+    "livefs_dbs) are read off the real resolver; what is modelled and proved is what the strategy does with them",
     "atom.match is re-expressed in Lean (key, version operator via C01's versionMatch, slot) and compared with the real atom.match on every "
     "atom x package of every case; dependency strings go through the real DepSet.parse / cnf_solutions",
     "serialisation of repositories and plans (harness) — cross-checked by an independent Python evaluation of the property on the real objects "
@@ -31,7 +35,12 @@ ASSUMPTIONS = [
 ]
 RULE = ("three streams of repositories (each with installed database, 1-2 targets, resolver = upgrade / min-install / empty-tree): (a) key-acyclic "
         "dependency graphs with consistent installed twins, (b) key-acyclic with installed packages whose slot/deps differ from the source twin, "
-        "(c) adversarial: cycles, self-dependencies, contradictory ranges; every successful plan is decided by the Lean checker and by an "
+        "(c) adversarial: cycles, self-dependencies, contradictory ranges, (d) key-acyclic 'family' repositories whose dependency strings are drawn "
+        "from a small per-case stock of atoms and any-of groups — the same alternatives recur (permuted, shortened, doubled) in several classes, "
+        "versions and packages, as RDEPEND=\"${DEPEND}\" and version bumps make them do — including atoms nothing provides (a name no repository "
+        "has, a version range or slot nobody reaches), (e) 'late-reject' repositories: highest versions given up after part of their dependencies "
+        "was planned, installed packages weakly blocked by the highest versions of several targets and displaced for them; after every resolution the real depset reorder strategy of the used resolver is compared "
+        "with the Lean model on every clause of every package; every successful plan is decided by the Lean checker and by an "
         "independent Python evaluation; non-trivial = resolver reported success and the plan merges at least one package with a dependency clause")
 
 CLASSES = ("depend", "bdepend", "rdepend", "idepend", "pdepend")
@@ -186,6 +195,226 @@ def gen_case(rng, stream):
     return {"src": src, "vdb": vdb, "targets": targets, "mode": rng.choice(["upgrade", "min", "empty"]), "stream": stream}
 
 
+GHOSTS = ["n", "o"]      # names no repository of a case provides
+
+
+def gen_family_case(rng):
+    """key-acyclic repositories whose dependency strings come from a small per-case stock of atoms and any-of groups: the same
+    alternatives recur — permuted, with one dropped, with one doubled — in several clauses, classes, versions and packages (what
+    RDEPEND="${DEPEND}", shared eclass dependencies and version bumps do in real trees).  The stock contains atoms nothing provides
+    (a name no repository has, a version above every version, a slot nobody uses), so that candidates fail late, alternatives are
+    found hopeless at one place and met again at another, and higher versions are given up for lower ones."""
+    names = NAMES[: rng.randint(3, 6)]
+    vers = {n: rng.sample(VERSIONS, rng.randint(1, 3)) for n in names}
+
+    # the hopeless atoms of the case: few, so that they are met again and again
+    last = names[-1]
+    deadpool = rng.sample(["a/" + GHOSTS[0], "a/" + GHOSTS[1], f">a/{last}-3", f"a/{last}:7"], rng.choice([1, 1, 2]))
+
+    def dead(allowed):
+        usable = [d for d in deadpool if last in allowed or d[2] in GHOSTS]
+        return rng.choice(usable) if usable else "a/" + rng.choice(GHOSTS)
+
+    stock = []          # any-of groups of the case: (set of real names used, [alternatives])
+
+    def names_of(alts):
+        return {re.sub(r"^[!<>=~]*a/([a-z]).*$", r"\1", a) for a in alts} - set(GHOSTS)
+
+    def group(allowed):
+        usable = [g for g in stock if g[0] <= set(allowed)]
+        if usable and rng.random() < 0.7:
+            alts = list(rng.choice(usable)[1])
+            for _ in range(rng.randint(0, 2)):
+                k = rng.random()
+                if k < 0.4 and len(alts) > 2:
+                    del alts[rng.randrange(len(alts)) if rng.random() < 0.4 else -1]
+                elif k < 0.6:
+                    rng.shuffle(alts)
+                elif k < 0.8 and len(alts) < 4:
+                    alts.insert(rng.randrange(len(alts) + 1), rng.choice(alts))
+                elif len(alts) < 4 and allowed:
+                    alts.append(gen_atom(rng, allowed, blockers=False))
+        else:
+            alive = [gen_atom(rng, allowed, blockers=False) for _ in range(rng.randint(1, 2))] if allowed else []
+            k = rng.random()
+            if k < 0.3 and len(alive) > 1:
+                alts = alive
+            elif k < 0.7:
+                # the hopeless alternatives first: they are tried, found hopeless and remembered before the working one is reached
+                alts = [dead(allowed) for _ in range(rng.randint(1, 2))] + alive
+            elif k < 0.85:
+                alts = [dead(allowed) for _ in range(rng.randint(1, 2))] + alive
+                rng.shuffle(alts)
+            else:
+                alts = [dead(allowed) for _ in range(rng.randint(2, 3))]
+            if len(alts) < 2:
+                alts.append(dead(allowed))
+        stock.append((names_of(alts), alts))
+        return "|| ( " + " ".join(alts) + " )"
+
+    def deps(allowed):
+        out = {}
+        for cls in CLASSES:
+            if rng.random() < (0.5 if cls == "rdepend" else 0.3):
+                parts = []
+                for _ in range(rng.randint(1, 2)):
+                    k = rng.random()
+                    if k < 0.45:
+                        parts.append(group(allowed))
+                    elif k < 0.9 and allowed:
+                        parts.append(gen_atom(rng, allowed, blockers=False))
+                    elif k >= 0.9:
+                        parts.append(rng.choice(["!", "!!"]) + gen_atom(rng, names, blockers=False))
+                if parts:
+                    out[cls] = " ".join(parts)
+        if "depend" in out and rng.random() < 0.35:
+            out["rdepend"] = out["depend"]
+        if "bdepend" in out and rng.random() < 0.15:
+            out["idepend"] = out["bdepend"]
+        return out
+
+    # an "eclass" group: the same any-of, hopeless alternatives first, inherited by many packages of the case; individual packages
+    # carry it shortened or permuted
+    eclass = None
+    if rng.random() < 0.6:
+        eclass = [dead([last]) for _ in range(rng.randint(1, 2))] + [gen_atom(rng, [last], blockers=False) for _ in range(rng.randint(1, 2))]
+
+    def inherit(meta, allowed):
+        if eclass is None or last not in allowed or rng.random() >= 0.4:
+            return
+        alts = list(eclass)
+        k = rng.random()
+        if k < 0.35:
+            alts = [a for a in alts if a in deadpool]       # the working alternatives are not offered to this package
+            if len(alts) < 2:
+                alts.append(alts[0])
+        elif k < 0.5:
+            rng.shuffle(alts)
+        cls = rng.choice(CLASSES)
+        g = "|| ( " + " ".join(alts) + " )"
+        meta[cls] = (meta[cls] + " " + g) if cls in meta and rng.random() < 0.7 else (g + " " + meta.get(cls, "")).strip()
+
+    src, vdb = {}, {}
+    for i, n in enumerate(names):
+        allowed = names[i + 1:]
+        prev = None
+        for v in vers[n]:
+            if rng.random() < 0.25:
+                meta = {}                     # a plain version to fall back on
+            elif prev is not None and rng.random() < 0.6:
+                meta = dict(prev)             # a version bump: the dependencies of the other version, one class redone
+                meta.pop("slot", None)
+                cls = rng.choice(CLASSES)
+                meta.pop(cls, None)
+                meta.update({k: x for k, x in deps(allowed).items() if k == cls})
+            else:
+                meta = deps(allowed)
+                inherit(meta, allowed)
+            meta["slot"] = str(rng.choice([0, 0, 0, 0, 1]))
+            src[f"a/{n}-{v}"] = prev = meta
+    for i, n in enumerate(names):
+        if rng.random() < 0.3:
+            v = rng.choice(vers[n] + [rng.choice(VERSIONS)])
+            cpv = f"a/{n}-{v}"
+            if cpv in src:
+                meta = dict(src[cpv])
+            else:
+                meta = deps(names[i + 1:])
+                meta["slot"] = "0"
+            vdb[cpv] = meta
+    targets = [gen_atom(rng, names[:3], blockers=False) if rng.random() < 0.4 else "a/" + rng.choice(names[:3]) for _ in range(rng.randint(1, 2))]
+    return {"src": src, "vdb": vdb, "targets": targets, "mode": rng.choice(["upgrade", "upgrade", "min", "empty"]), "stream": "family"}
+
+
+def gen_reject_case(rng):
+    """repositories in which candidates are given up LATE and installed packages get displaced, resolved as a sequence on one resolver:
+
+    * late rejection: the highest version of a multi-version package has a build-time class that resolves (a version-ranged dependency
+      on another multi-version package) and a later class that cannot (a name nothing provides, a range nobody reaches, a strong blocker
+      on an installed package nothing replaces), so it is given up for a lower version after part of its dependencies was planned; the
+      package it depended on is itself a later target;
+    * blocked installed package: an installed package that the highest versions of several other packages weakly block
+      (version-ranged blocker), resolved by upgrading it; those other packages are the targets;
+      sometimes the upgrade sits in another slot (so the blocked package stays), sometimes the blocking version has a later class
+      that cannot be resolved (so it is given up after the installed package was displaced for it);
+    both with random installed versions, optional cross dependencies, random target order."""
+    p, x, y, u, w, z = rng.sample(NAMES, 6)
+    V = VERSIONS
+    src, vdb, targets = {}, {}, []
+    parts = rng.choice([("reject",), ("block",), ("reject", "block"), ("reject", "block")])
+    if "reject" in parts:
+        xi = sorted(rng.sample(range(len(V)), 3))
+        xlo, xmid, xhi = (V[i] for i in xi)
+        for v in (xlo, xmid, xhi):
+            src[f"a/{x}-{v}"] = {}
+        on_x = rng.choice([f"<a/{x}-{xhi}", f"<=a/{x}-{xmid}", f"=a/{x}-{xmid}", f">=a/{x}-{xmid}", f">a/{x}-{xlo}", f"a/{x}"])
+        pi = sorted(rng.sample(range(len(V)), rng.randint(2, 3)))
+        pv = [V[i] for i in pi]
+        hopeless = rng.choice(["a/" + rng.choice(GHOSTS), f">a/{x}-{V[-1]}", f"!!a/{z}", f"|| ( a/{GHOSTS[0]} >a/{x}-{V[-1]} )"])
+        if hopeless.startswith("!!"):
+            vdb[f"a/{z}-1"] = {}
+        top = {rng.choice(["depend", "bdepend"]): on_x, rng.choice(["rdepend", "idepend", "pdepend"]): hopeless}
+        src[f"a/{p}-{pv[-1]}"] = top
+        for v in pv[:-1]:
+            src[f"a/{p}-{v}"] = rng.choice([{}, {}, {"rdepend": f"a/{x}"}, dict(top)])
+        src[f"a/{p}-{pv[0]}"] = rng.choice([{}, {}, {"rdepend": f"a/{x}"}])
+        if rng.random() < 0.5:
+            vdb[f"a/{x}-{rng.choice([xlo, xlo, xmid])}"] = {}
+        if rng.random() < 0.2:
+            vdb[f"a/{p}-{pv[0]}"] = dict(src[f"a/{p}-{pv[0]}"])
+        t = [f"a/{p}", f"a/{x}"]
+        if rng.random() < 0.25:
+            t.reverse()
+        targets += t
+    if "block" in parts:
+        ylo, yhi = (V[i] for i in sorted(rng.sample(range(len(V)), 2)))
+        src[f"a/{y}-{ylo}"] = {}
+        src[f"a/{y}-{yhi}"] = {"slot": "1"} if rng.random() < 0.2 else {}
+        vdb[f"a/{y}-{ylo}"] = {}
+        blocker = rng.choice([f"!<a/{y}-{yhi}", f"!<=a/{y}-{ylo}", f"!=a/{y}-{ylo}", f"!<a/{y}-{yhi}"])
+        carriers = [u, w] if rng.random() < 0.8 else [u]
+        his = {}
+        for c in carriers:
+            lo, hi = (V[i] for i in sorted(rng.sample(range(len(V)), 2)))
+            his[c] = hi
+            src[f"a/{c}-{hi}"] = {rng.choice(["rdepend", "rdepend", "depend", "pdepend"]): blocker}
+            if rng.random() < 0.3:
+                # given up late: after the blocker was resolved by displacing the installed package
+                src[f"a/{c}-{hi}"][rng.choice(["idepend", "pdepend"])] = rng.choice(["a/" + GHOSTS[0], f"|| ( a/{GHOSTS[1]} >a/{y}-{V[-1]} )"])
+            src[f"a/{c}-{lo}"] = {}
+            if rng.random() < 0.8:
+                vdb[f"a/{c}-{lo}"] = {}
+        if "reject" in parts and rng.random() < 0.3:
+            src[f"a/{u}-{his[u]}"]["idepend"] = f"a/{p}"
+        t = [f"a/{c}" for c in carriers]
+        if rng.random() < 0.3:
+            t.append(f"a/{y}")
+        rng.shuffle(t)
+        targets = (targets + t) if rng.random() < 0.5 else (t + targets)
+    for m in list(src.values()) + list(vdb.values()):
+        m.setdefault("slot", "0")
+    return {"src": src, "vdb": vdb, "targets": targets[:4], "mode": "upgrade", "stream": "late-reject"}
+
+
+def reorder_jobs(r, U):
+    """every clause of every package, as the resolver's depset reorder strategy rewrites it right now (with whatever the resolver has
+    learnt so far): [(package, class, clause, what the strategy yields, flags for the Lean model)]"""
+    jobs = []
+    for p in U:
+        for cls in CLASSES:
+            cnf = [list(cl) for cl in getattr(p, cls).cnf_solutions()]
+            if not cnf:
+                continue
+            got = [list(x) for x in r.depset_reorder(cnf, cls)]
+            if len(got) != len(cnf):
+                jobs.append((p, cls, None, got, None))
+                continue
+            for cl, out in zip(cnf, got):
+                flags = [[bool(a.blocks), bool(r.state.match_atom(a) or a in r.livefs_dbs)] for a in cl]
+                jobs.append((p, cls, cl, out, flags))
+    return jobs
+
+
 # hand-written boundary cases (why_tests_cant + every defect found)
 CORPUS = [
     # the resolver could not be instantiated at all (fix b16b7d3); IDEPEND was never resolved (fix a3468e5)
@@ -217,6 +446,12 @@ CORPUS = [
     {"src": {"a/b-2": {"depend": ">=a/c-2_rc1", "bdepend": "a/d:1", "rdepend": "~a/e-2", "idepend": "<a/f-1.10", "pdepend": "a/g"},
              "a/c-2_rc1": {}, "a/c-1": {}, "a/d-1": {"slot": "1"}, "a/d-2": {}, "a/e-2-r1": {}, "a/e-3": {}, "a/f-1.1": {}, "a/f-1.10": {}, "a/g-1": {"rdepend": "a/b"}},
      "vdb": {}, "targets": ["a/b"], "mode": "upgrade"},
+    # alternatives found hopeless while resolving a dependency (a/c's any-of) are met again in an any-of of the depending package, all of
+    # them hopeless there: a/b-2 must be given up for a/b-1 — an any-of group never shrinks to "nothing left to fail"
+    {"src": {"a/b-2": {"depend": "a/c", "rdepend": "|| ( a/n a/o )"}, "a/b-1": {}, "a/c-1": {"rdepend": "|| ( a/n a/o a/d )"}, "a/d-1": {}},
+     "vdb": {}, "targets": ["a/b"], "mode": "upgrade"},
+    {"src": {"a/b-3": {"rdepend": "a/c", "idepend": "|| ( >a/d-3 >a/d-3 )"}, "a/b-2": {"rdepend": "a/c"}, "a/b-1": {},
+             "a/c-1": {"bdepend": "|| ( >a/d-3 a/d:7 a/d )"}, "a/d-1": {}}, "vdb": {"a/b-1": {}}, "targets": ["a/b"], "mode": "upgrade"},
     # open finding: dependency on another version of a slot the plan fills (installed package replaced after it satisfied a dependency)
     {"src": {"a/c-1": {"rdepend": ">=a/c-3", "slot": "1"}, "a/c-3": {"slot": "1"}}, "vdb": {"a/c-3": {"slot": "1"}}, "targets": ["<a/c-2"], "mode": "upgrade"},
     # open finding: unbounded recursion through a package's own name
@@ -405,8 +640,11 @@ def run(ctx):
     n = ctx.n(700, 20000)
     for i in range(n):
         cases.append(gen_case(rng, ("dag", "dag-twins", "wild")[i % 3] if i % 7 else "wild"))
+    for i in range(ctx.n(280, 4000)):
+        cases.append(gen_family_case(rng) if i % 5 < 3 else dict(gen_reject_case(rng), mode=rng.choice(["upgrade", "upgrade", "min", "empty"])))
 
     pending = []   # (case, resolver bits) waiting for the Lean verdict
+    reorders = []  # (case, package, class, clause, yielded, flags) waiting for the Lean model of the reorder strategy
     for case in cases:
         status, r, s, v, detail = resolve(case)
         ctx.count("resolver_" + status)
@@ -425,6 +663,13 @@ def run(ctx):
                           finding="C15-unbounded-recursion-on-name-cycles" if cyc else None)
             ctx.case(brief, False)
             continue
+        # ---- the clause reorder strategy of the resolver that has just been used (it has a plan, force-loaded installed packages
+        # and a memory of hopeless atoms by now): per clause a permutation, the one the Lean model computes
+        try:
+            for job in reorder_jobs(r, list(s) + list(v)):
+                reorders.append((brief,) + job)
+        except Exception as e:  # noqa: BLE001
+            ctx.violation(brief, f"depset reorder strategy raised {type(e).__name__}: {e}")
         if status == "fail":
             ctx.case(brief, False)
             continue
@@ -450,6 +695,37 @@ def run(ctx):
             ctx.mismatch(brief, f"could not serialise the case: {type(e).__name__}: {e}")
             continue
         pending.append((brief, case, U, F, merged, targets, alist, plan, req))
+
+    todo = [j for j in reorders if j[3] is not None]
+    for brief, p, cls, cl, out, flags in reorders:
+        if cl is None:
+            ctx.mismatch(brief, f"{p!r} {cls.upper()}: the reorder strategy yields {len(out)} clauses for a class that has another number of them")
+    chunks = [todo[i:i + 200] for i in range(0, len(todo), 200)]
+    replies = ctx.model([{"cmd": "c15.reorder", "clauses": [j[5] for j in ch]} for ch in chunks])
+    order = []
+    for ch, rep in zip(chunks, replies):
+        order.extend(rep if isinstance(rep, list) and len(rep) == len(ch) else [None] * len(ch))
+    bad_reorder = set()
+    for (brief, p, cls, cl, out, flags), idx in zip(todo, order):
+        ctx.evaluations += 1
+        ctx.count("reorder_clause_len_%d" % min(len(cl), 4))
+        if len(cl) > 1 and any(f[1] and not f[0] for f in flags):
+            ctx.count("reorder_clause_with_preferred_alternative")
+        k = repr(brief)
+        if idx is None:
+            ctx.mismatch(brief, "driver rejected a reorder request")
+        elif sorted(map(str, out)) != sorted(map(str, cl)):
+            if k not in bad_reorder:
+                ctx.mismatch(dict(brief, clause=f"{p!r} {cls.upper()} {' | '.join(map(str, cl))}"),
+                             f"after this resolution the resolver's reorder strategy turns the clause into {[str(a) for a in out]}: not a "
+                             f"permutation of its alternatives (theorem reorder_perm); a clause that lost alternatives can be taken for satisfied "
+                             f"or fail although the dropped alternative was the way out")
+            bad_reorder.add(k)
+        elif [str(a) for a in out] != [str(cl[i]) for i in idx]:
+            if k not in bad_reorder:
+                ctx.mismatch(dict(brief, clause=f"{p!r} {cls.upper()} {' | '.join(map(str, cl))}"),
+                             f"reorder strategy: real order {[str(a) for a in out]}, Lean model {[str(cl[i]) for i in idx]} (flags {flags})")
+            bad_reorder.add(k)
 
     replies = ctx.model([p[-1] for p in pending])
     for (brief, case, U, F, merged, targets, alist, plan, req), rep in zip(pending, replies):
@@ -507,7 +783,9 @@ LEVEL_TEXT = ("Kernel-checked Lean 4 theorems about a certificate checker: every
               "five dependency classes of every merged package satisfied, one package per key and slot, no present package hit by a blocker of a "
               "merged package (planOk_sound), and planOk rejects a well-formed plan only if it violates that (planOk_complete); on the planner state "
               "model of C17: an unforced add onto a matching limiter is refused without changing the state, and without forced operations no reachable "
-              "state holds two packages in one slot, for all operation histories. The real resolver (upgrade, min-install, empty-tree) is run on "
+              "state holds two packages in one slot, for all operation histories; the clause reorder strategy the search relies on hands it a "
+              "permutation of every clause, so it can neither drop nor invent an alternative (reorder_perm, reorder_keeps_clause; compared with "
+              "the real strategy of every used resolver on every clause). The real resolver (upgrade, min-install, empty-tree) is run on "
               "generated repositories and every reported plan is decided by the compiled checker; the search itself is not proved.")
 LEVEL_NOTE = ("Partial: the theorem is about the checker and the state layer; the backtracking search is covered per produced plan only. "
               "Trusted: Lean kernel, standard axioms; Lean re-expression of atom.match (compared on every atom x package of every case); serialisation.")
